@@ -113,18 +113,34 @@ func (rp *realPool) step(op string, arg json.RawMessage) (class string, ec strin
 		var k int
 		json.Unmarshal(arg, &k)
 		return recvReal(rp.p, rp.evs[k-1])
-	case "cons":
+	case "cons", "consb":
 		var k int
 		json.Unmarshal(arg, &k)
 		ev := rp.evs[k-1]
 		wasP, wasC := rp.isPending(k), rp.p.VerifIsCommitted(ev)
-		var err error
-		if tw := rp.twins[k-1]; tw != nil {
-			c := *tw // consensus builds a new object every time
-			err = rp.p.AddEvidenceFromConsensus(&c)
-		} else {
-			err = rp.p.AddEvidenceFromConsensus(ev)
+		// as consensus/state.go tryAddVote: the real constructor on (the vote seen first, the conflicting vote);
+		// cons = the vote with the smaller block key was seen first, consb = the other one
+		first, second := ev.VoteA.Copy(), ev.VoteB.Copy()
+		if op == "consb" {
+			first, second = second, first
 		}
+		vs, verr := rp.f.Ref.Store.LoadValidators(ev.Height())
+		if verr != nil {
+			return "error", "novalset", nil
+		}
+		built := types.NewDuplicateVoteEvidence(first, second, ev.Timestamp, vs)
+		if built == nil {
+			return "unbuildable", "nil", nil
+		}
+		if rp.twins[k-1] != nil { // the stamp consensus gives
+			built.Timestamp = built.Timestamp.Add(1)
+			built.TotalVotingPower++
+		}
+		if berr := built.ValidateBasic(); berr != nil {
+			// it would be stored, but no decoding (the pool's own database, gossip, a block) takes it back
+			return "unbuildable", errClass(berr), nil
+		}
+		err := rp.p.AddEvidenceFromConsensus(built)
 		switch {
 		case err != nil:
 			return "error", errClass(err), nil
@@ -301,6 +317,8 @@ func stepSig(op, spec, why, real, ec string) string {
 	switch {
 	case real == "panic":
 		return "evidence:" + op + ":panic:" + spec
+	case real == "unbuildable":
+		return "evidence:" + op + ":constructor:" + ec
 	case op == "cons" && spec == "committed" && real == "added":
 		return "evidence:cons:added-although-committed"
 	case accepted[real] && !accepted[spec]:
